@@ -73,6 +73,12 @@ def enum_long(tier):
     for j, (acct, iv, testnet, src) in enumerate(cfgs):
         yield {"source": src, "xver": 44, "entropy": bytes([j + 1]) * 16, "pw": "", "seed": bytes([j + 7]) * 32, "testnet": testnet,
                "calls": [(acct, iv), (acct, [0, 2])], "same_account": True}
+    # one long-lived wallet asked for many different accounts (more than any small table holds), then again for early ones
+    many = 30 if tier == "quick" else 90
+    for j, first in enumerate((0, 5)):
+        accts = list(range(first, first + many))
+        yield {"source": "seed", "xver": 44, "entropy": bytes([9]) * 16, "pw": "", "seed": bytes([40 + j]) * 32, "testnet": bool(j),
+               "calls": [(a_, [0, 0]) for a_ in accts] + [(accts[0], [0, 2]), (accts[1], [3, 4]), (accts[-1], [0, 1])], "same_account": False}
 
 
 def build(case):
@@ -281,6 +287,54 @@ def key_wallet(case):
     return [case["source"], case["entropy"], case["seed"], case["pw"], case["testnet"], case["calls"]]
 
 
+# ------------------------------------------------------------------------------------ rendering in an ASCII-only locale
+_ASCII_CHILD = r"""
+import json, sys
+spec = json.loads(sys.stdin.readline())
+sys.path.insert(0, spec["repo"])
+from btc_hd_wallet.paper_wallet import PaperWallet
+w = PaperWallet.from_mnemonic(spec["mnemonic"], spec["pw"], spec["testnet"])
+data = w.generate(spec["account"], (0, 1))
+w.pprint(data)
+w.export_wallet(spec["file"], 4, data)
+"""
+
+
+def check_ascii_locale(case, ctx):
+    """The JSON rendering reaches a terminal / file whose encoding is plain ASCII (LANG=C, no UTF-8 mode): the wallet with a
+    non-ASCII passphrase must still be printed and saved, and both must parse back to the generated data."""
+    import os, shutil, subprocess, sys, tempfile
+    from vlib.engine import repo_dir
+    PW = _impl()
+    m = R39.encode(case["entropy"])
+    try:
+        R.master(R39.seed(m, case["pw"]))
+    except R.Invalid:
+        return
+    want = json.loads(json.dumps(PW.from_mnemonic(m, case["pw"], case["testnet"]).generate(case["account"], (0, 1))))
+    tmpd = tempfile.mkdtemp(prefix="c06a-")
+    try:
+        fp = os.path.join(tmpd, "w.json")
+        env = {k: v for k, v in os.environ.items() if not k.startswith(("LC_", "PYTHON")) and k != "LANG"}
+        env.update(LC_ALL="C", LANG="C", PYTHONUTF8="0", PYTHONCOERCECLOCALE="0", PYTHONDONTWRITEBYTECODE="1", PYTHONHASHSEED="0")
+        spec = {"repo": repo_dir(), "mnemonic": m, "pw": case["pw"], "testnet": case["testnet"], "account": case["account"], "file": fp}
+        r = subprocess.run([sys.executable, "-c", _ASCII_CHILD], input=(json.dumps(spec) + "\n").encode("ascii"), capture_output=True,
+                           env=env, cwd=tmpd, timeout=300)
+        what = "PaperWallet with passphrase %r rendered in an ASCII-only locale (LANG=C, UTF-8 mode off)" % case["pw"]
+        if r.returncode != 0:
+            raise Violation("C06/ascii-locale/raised", "%s: pprint()/export_wallet() failed: %s" % (what, r.stderr.decode("ascii", "replace")[-300:]))
+        for where, raw in (("pprint() stdout", r.stdout), ("export_wallet() file", open(fp, "rb").read())):
+            try:
+                got = json.loads(raw.decode("utf-8"))
+            except ValueError as e:
+                raise Violation("C06/ascii-locale/not-json", "%s: %s does not parse: %r" % (what, where, e))
+            if got != want:
+                raise Violation("C06/ascii-locale/roundtrip", "%s: %s parses to other data than generate() returned (MASTER %r)"
+                                % (what, where, got.get("MASTER") if isinstance(got, dict) else got))
+    finally:
+        shutil.rmtree(tmpd, ignore_errors=True)
+
+
 def clauses():
     return [
         Clause("records", check_wallet,
@@ -291,6 +345,16 @@ def clauses():
                "testnet, account != 0, start > 0, 0/1 rows, e < s, or more than one call",
                gen=gen_wallet, nontrivial=nt_wallet, classes=classes_wallet, key=key_wallet,
                enum=enum_long, enum_desc="long records: 258..300 rows per section (quick 2, thorough 6 wallets), also "
-                                         "followed by a short record on the same wallet",
+                                         "followed by a short record on the same wallet; 30 (90) different accounts on one wallet, "
+                                         "then the first ones again",
                n={"quick": 480, "thorough": 8000}, shards={"quick": 16, "thorough": 16}),
+        Clause("ascii-locale", check_ascii_locale,
+               "one interpreter per case started with LANG=C, PYTHONUTF8=0, PYTHONCOERCECLOCALE=0 (stdout and files are plain "
+               "ASCII): a wallet whose passphrase holds non-ASCII text is printed with pprint() and saved with "
+               "export_wallet(); both must succeed and parse back to the data generate() returned",
+               gen=lambda tier: st.fixed_dictionaries({
+                   "entropy": st.sampled_from([16, 32]).flatmap(lambda n: st.binary(min_size=n, max_size=n)),
+                   "pw": st.one_of(st.text(alphabet="\u00e9\u0416\u4e2d\U0001f511 a\u212b", min_size=1, max_size=6), S.unicode_text(6).filter(lambda t: t and not t.isascii())),
+                   "testnet": st.booleans(), "account": st.sampled_from([0, 1, 7])}),
+               nontrivial=lambda c: True, n={"quick": 24, "thorough": 400}, shards={"quick": 12, "thorough": 16}),
     ]
